@@ -515,3 +515,30 @@ class PoolUpdateStatus:
 def disjoint(st):
     """No component is both working and uncertain."""
     return len(st.working.intersection(st.uncertain)) == 0
+
+
+# ------------------------------------------------------------------ how the per-component trackers are configured
+TrackerFactoryT = ExtObj("component status tracker type", methods={"__call__": dict(returns="made_tracker", effects={
+    "n_made": "self.n_made + 1", "given_max_data_age": "kwargs['max_data_age']",
+    "given_max_blocking_duration": "kwargs['max_blocking_duration']", "given_component": "kwargs['component_id']"})},
+    n_made=Int, given_max_data_age=Delta, given_max_blocking_duration=Delta, given_component=Int)
+StatusChannelT = ExtObj("frequenz.channels.Broadcast", methods=dict(new_sender=dict(returns="a_sender"), new_receiver=dict(returns="a_receiver")))
+
+
+@contract(f"{PT}:ComponentPoolStatusTracker._make_merged_status_receiver")
+class MakeMergedStatusReceiver:
+    """C16 (configuration): every per-component tracker is created with the pool's maximum data age as ITS maximum
+    data age and the pool's maximum blocking duration as ITS blocking cap (two timedeltas that are easy to swap)."""
+    self_shape = Obj(f"{PT}:ComponentPoolStatusTracker", _component_ids=Const({7, 9}), _max_data_age=Delta,
+                     _max_blocking_duration=Delta, _component_status_tracker_type=TrackerFactoryT,
+                     _set_power_result_channel=StatusChannelT, _component_status_trackers=Seq(OpaqueT("tracker")))
+    ghost = dict(chan=StatusChannelT, a_sender=OpaqueT("sender"), a_receiver=OpaqueT("receiver"),
+                 made_tracker=OpaqueT("tracker"), merged=OpaqueT("merged receiver"))
+    externals = {"frequenz.channels.Broadcast": "chan", "frequenz.channels.merge": "merged"}
+    modifies = ["self._component_status_trackers", "self._component_status_tracker_type", "self._set_power_result_channel", "chan"]
+    requires = dict(fresh="self._component_status_tracker_type.n_made == 0")
+    ensures = dict(
+        one_tracker_per_component="self._component_status_tracker_type.n_made == 2",
+        data_age_is_data_age="self._component_status_tracker_type.given_max_data_age == self._max_data_age",
+        blocking_cap_is_blocking_cap="self._component_status_tracker_type.given_max_blocking_duration == self._max_blocking_duration",
+    )
